@@ -128,6 +128,20 @@ class SysState:
         self.slots = []      # (leaf, attrname)
         self._slotset = set()
         self._dictlen = {}
+        # class-level state of the leaves' classes (a list / dict / counter declared on the class and mutated through
+        # the instances is state too - and it is shared by every instance of the process)
+        self.cslots = []     # (class, attrname)
+        seen_cls = set()
+        for leaf in self.leaves:
+            for cls in type(leaf).__mro__:
+                if cls in (Logic, object) or cls in seen_cls:
+                    continue
+                seen_cls.add(cls)
+                for k, v in list(vars(cls).items()):
+                    if k.startswith('__') or callable(v) or isinstance(v, (staticmethod, classmethod, property, Wire, Logic)):
+                        continue
+                    if isinstance(v, (list, dict, set)) and _is_state_value(list(v) if isinstance(v, set) else v):
+                        self.cslots.append((cls, k))
         self._discover()
 
     def _discover(self):
@@ -151,6 +165,9 @@ class SysState:
                 self._discover()
                 break
         wv = tuple(w.value for w in self.wires)
+        if self.cslots:
+            wv += (('CLS',) + tuple(_freeze(sorted(v, key=repr)) if isinstance(v, set) else _freeze(v)
+                                    for v in (vars(c).get(k) for c, k in self.cslots)),)
         av = []
         for leaf, k in self.slots:
             v = leaf.__dict__.get(k, _ABSENT)
@@ -159,12 +176,23 @@ class SysState:
 
     def key(self, snap):
         wv, av = snap
-        return (tuple(wv[i] for i in self.key_idx), av)
+        return (tuple(wv[i] for i in self.key_idx) + tuple(wv[len(self.wires):]), av)
 
     def restore(self, snap):
         wv, av = snap
         for w, v in zip(self.wires, wv):
             w.value = v
+        if self.cslots and len(wv) > len(self.wires):
+            for (c, k), fv in zip(self.cslots, wv[len(self.wires)][1:]):
+                cur, val = vars(c).get(k), _thaw(fv)
+                if isinstance(cur, list):
+                    cur[:] = val                 # in place: the instances keep sharing the one object
+                elif isinstance(cur, dict):
+                    cur.clear()
+                    cur.update(val)
+                elif isinstance(cur, set):
+                    cur.clear()
+                    cur.update(val)
         n = len(av)
         for i, (leaf, k) in enumerate(self.slots):
             v = av[i] if i < n else _ABSENT
@@ -297,8 +325,25 @@ class Explorer:
             for x in choices:
                 st.restore(snap)
                 self.set_extra(c, ex)
-                with quiet():
-                    self.step(c, x)
+                try:
+                    with quiet():
+                        self.step(c, x)
+                except HarnessError:
+                    raise
+                except Exception as e:
+                    # the code under test raised on a stimulus of the alphabet (the harness's own steps do not raise):
+                    # nothing defined happened on this edge
+                    import traceback
+                    tb = traceback.extract_tb(e.__traceback__)
+                    where = ['%s:%d %s' % (f.filename.split('/')[-1], f.lineno, f.name) for f in tb[-3:]]
+                    if tb and '/mc/' in tb[-1].filename:
+                        raise
+                    reset_prepared()
+                    self.violations.append(('step', self._trace(seen, k) + [x],
+                                            {'sigkey': 'raised', 'error': repr(e)[:200], 'where': where}))
+                    if stop_on_first:
+                        return self
+                    continue
                 self.transitions += 1
                 if self.monitor_widths:
                     bad = check_widths(st)
